@@ -57,13 +57,46 @@ def _indenting_join(e):
     return isinstance(a, ast.Call) and isinstance(a.func, ast.Attribute) and ((a.func.attr == "split" and len(a.args) == 1 and q.is_const(a.args[0], "\n")) or (a.func.attr == "splitlines" and not a.args))
 
 
+def _helper_of(ck, call):
+    """Same-class method / same-module function called by ``call`` (None if not resolvable)."""
+    f = call.func
+    if isinstance(f, ast.Attribute) and q.dotted(f.value) in ("self", "cls", "LogFormatter") and ck.repo.has_func(F, "LogFormatter." + f.attr):
+        return ck.repo.func(F, "LogFormatter." + f.attr)
+    if isinstance(f, ast.Name) and ck.repo.has_func(F, f.id):
+        return ck.repo.func(F, f.id)
+    return None
+
+
+def _indenting_value(ck, e, depth=0):
+    """True: the expression is indented text; False: positively not; None: goes through code that is not understood."""
+    if _indenting(e):
+        return True
+    if isinstance(e, ast.Call):
+        h = _helper_of(ck, e)
+        if h is not None and depth < 2:
+            rets = [r for r in own_nodes(h.node) if isinstance(r, ast.Return)]
+            if not rets:
+                return None
+            vals = [_indenting_value(ck, r.value, depth + 1) if r.value is not None else False for r in rets]
+            if all(v is True for v in vals):
+                return True
+            return None
+        f = e.func
+        if isinstance(f, ast.Attribute) and q.dotted(f.value) in ("self", "cls"):
+            return None  # an unknown method of the formatter
+        return False
+    if isinstance(e, ast.Name):
+        return None
+    return False
+
+
 def rule_indent(ck, fi):
     cfg = fi.cfg
     rets = cfg.stmt_nodes(lambda n: n.kind == "stmt" and isinstance(n.ast, ast.Return))
     ck.floor("C45.indent-return", len(rets), 1, "return statements in format")
 
     def gen(n):
-        if n.kind == "stmt" and isinstance(n.ast, (ast.Assign, ast.AnnAssign)) and n.ast.value is not None and _indenting(n.ast.value):
+        if n.kind == "stmt" and isinstance(n.ast, (ast.Assign, ast.AnnAssign)) and n.ast.value is not None and _indenting_value(ck, n.ast.value) is True:
             return [("@indented:" + p, True) for p in q.assigned_paths(n.ast)]
         return []
 
@@ -84,12 +117,18 @@ def rule_indent(ck, fi):
     for r in rets:
         v = r.ast.value
         ok = False
-        if v is not None and _indenting(v):
+        if v is not None and _indenting_value(ck, v) is True:
             ok = True
         elif isinstance(v, ast.Name) and ("@indented:" + v.id, True) in facts[r.id]:
             ok = True
         elif isinstance(v, ast.Name) and holds(cfacts[r.id], "'\\n' in %s" % v.id, False):
             ok = True  # fast path: the text is known to contain no newline at all
+        if not ok:
+            # a VIOLATION needs positive evidence: the value must be traceable to expressions that are known not to indent
+            from ..x_flow import _defs_of
+            probe = [v] if not isinstance(v, ast.Name) else [d for _st, _pos, d in _defs_of(fi.node, v.id)]
+            if v is None or any(_indenting_value(ck, x) is None and not isinstance(x, ast.Name) for x in probe):
+                raise AnalysisError("format(): the returned text goes through code that is not understood (%s)" % (q.unparse(r.ast)[:80]))
         ck.ob("C45.indent-return", fi, r.ast, ok,
               "the returned text is the result of .replace('\\n', '\\n' + indentation) with nothing appended afterwards (a newline in message or traceback cannot start a new entry)")
     if cfg.pred[cfg.exit.id]:
@@ -99,6 +138,33 @@ def rule_indent(ck, fi):
                 ck.ob("C45.indent-return", fi, fi.node, False, "format() returns a string on every path (no fall-through returning None)", construct="fallthrough")
 
 
+def _msg_store_pred(rec):
+    msg_attr = rec + ".message"
+    return lambda n: n.kind == "stmt" and isinstance(n.ast, (ast.Assign, ast.AnnAssign)) and msg_attr in q.assigned_paths(n.ast)
+
+
+def _check_extraction(ck, h, rec):
+    """Obligations on the function that contains record.getMessage() (format itself or a private helper of it)."""
+    pm = q.parent_map(h.node)
+    gm = [c for c in q.find_calls(h.node, rec + ".getMessage")]
+    for c in gm:
+        hd = q.protected_by(pm, c, "Exception")
+        ck.ob("C45.message-guard", h, c, hd is not None, "record.getMessage() (applies caller-supplied args to the caller-supplied format) runs under a handler that catches Exception")
+    is_msg = _msg_store_pred(rec)
+    stores = h.cfg.stmt_nodes(is_msg)
+    for s_ in stores:
+        v = s_.ast.value
+        in_handler = any(isinstance(a, ast.ExceptHandler) for a in q.ancestors(pm, s_.ast))
+        if in_handler:
+            ok = isinstance(v, (ast.JoinedStr, ast.Constant)) or (isinstance(v, ast.BinOp) and isinstance(v.op, ast.Mod) and isinstance(v.left, ast.Constant))
+            ck.ob("C45.message-set", h, s_.ast, ok, "the fallback message is built by plain string formatting of reprs (nothing that re-applies the caller's format)")
+        else:
+            calls = [c for c in q.calls(s_.ast) if q.call_attr(c) not in ("_safe_unicode", "str", "repr")]
+            ok = q.protected_by(pm, v, "Exception") is not None if calls or isinstance(v, ast.Call) else True
+            ck.ob("C45.message-guard", h, s_.ast, ok, "the conversion of the extracted message runs under the same kind of handler")
+    return len(gm), len(stores)
+
+
 def rule_message(ck, fi):
     cfg = fi.cfg
     params = [p for p in fi.params() if p != "self"]
@@ -106,25 +172,28 @@ def rule_message(ck, fi):
         raise AnalysisError("format() does not take exactly the record")
     rec = params[0]
     pm = q.parent_map(fi.node)
-    gm = [c for c in q.find_calls(fi.node, rec + ".getMessage")]
-    ck.floor("C45.message-guard", len(gm), 1, "record.getMessage() calls")
-    for c in gm:
-        h = q.protected_by(pm, c, "Exception")
-        ck.ob("C45.message-guard", fi, c, h is not None, "record.getMessage() (applies caller-supplied args to the caller-supplied format) runs under a handler that catches Exception")
-    msg_attr = rec + ".message"
-    is_msg = lambda n: n.kind == "stmt" and isinstance(n.ast, (ast.Assign, ast.AnnAssign)) and msg_attr in q.assigned_paths(n.ast)
-    stores = cfg.stmt_nodes(is_msg)
-    ck.floor("C45.message-set", len(stores), 1, "assignments of record.message")
-    for s in stores:
-        v = s.ast.value
-        in_handler = any(isinstance(a, ast.ExceptHandler) for a in q.ancestors(pm, s.ast))
-        if in_handler:
-            ok = isinstance(v, (ast.JoinedStr, ast.Constant)) or (isinstance(v, ast.BinOp) and isinstance(v.op, ast.Mod) and isinstance(v.left, ast.Constant))
-            ck.ob("C45.message-set", fi, s.ast, ok, "the fallback message is built by plain string formatting of reprs (nothing that re-applies the caller's format)")
-        else:
-            calls = [c for c in q.calls(s.ast) if q.call_attr(c) not in ("_safe_unicode", "str", "repr")]
-            ok = q.protected_by(pm, v, "Exception") is not None if calls or isinstance(v, ast.Call) else True
-            ck.ob("C45.message-guard", fi, s.ast, ok, "the conversion of the extracted message runs under the same kind of handler")
+    # helpers of the class that are handed the record (one level): they may hold the extraction
+    helpers = {}
+    for node, c in cfg.find(lambda x: isinstance(x, ast.Call) and isinstance(x.func, ast.Attribute) and q.dotted(x.func.value) == "self" and any(q.dotted(a) == rec for a in x.args)):
+        qn = "LogFormatter." + c.func.attr
+        if ck.repo.has_func(F, qn) and not c.keywords:
+            h = ck.repo.func(F, qn)
+            hp = [p for p in h.params() if p != "self"]
+            if len(hp) == len(c.args):
+                hrec = hp[[q.dotted(a) for a in c.args].index(rec)]
+                helpers[node.id] = (h, hrec)
+    n_gm, n_st = _check_extraction(ck, fi, rec)
+    summaries = {}
+    for nid, (h, hrec) in helpers.items():
+        g2, s2 = _check_extraction(ck, ck.use(h), hrec)
+        n_gm += g2
+        n_st += s2
+        ef_h = event_facts(h, {"msg": _msg_store_pred(hrec)}, cond_facts=False)
+        summaries[nid] = ("@msg", True) in ef_h.get(h.cfg.exit.id, frozenset())
+    ck.floor("C45.message-guard", n_gm, 1, "record.getMessage() calls")
+    ck.floor("C45.message-set", n_st, 1, "assignments of record.message")
+    is_msg_here = _msg_store_pred(rec)
+    is_msg = lambda n: is_msg_here(n) or summaries.get(n.id, False)
     # record.message assigned on every path before the format string is applied
     uses = [n for n in cfg.stmt_nodes(lambda n: n.kind == "stmt") if any(isinstance(x, ast.BinOp) and isinstance(x.op, ast.Mod) and q.dotted(x.left) == "self._fmt" for x in q.walk_local(n.ast))]
     if not uses:
@@ -166,6 +235,8 @@ def rule_safe_unicode(ck, fi):
                 cands = [(v_, st_) for st_, _pos, v_ in ds]
             for v, where in cands:
                 ok = isinstance(v, ast.Call) and q.call_attr(v) in TEXT_CALLS
+                if not ok and isinstance(v, ast.Call):
+                    raise AnalysisError("_safe_unicode returns the result of %s, which is not followed" % q.unparse(v.func))
                 ck.ob("C45.safe-unicode", su, where, ok, "_safe_unicode returns text (decoded, or repr as the fallback)")
                 if any(isinstance(a, ast.ExceptHandler) for a in q.ancestors(pm, where)):
                     ck.ob("C45.safe-unicode", su, where, isinstance(v, ast.Call) and q.call_attr(v) in ("repr", "ascii"), "the fallback cannot fail for bytes (repr)", construct="fallback " + q.unparse(where))
